@@ -760,6 +760,7 @@ theorem recover_built_accepted (ok : HashOK H) (i : RecoverInfo) (req : Json) (k
     (hp : patchesOf i.opaqueDoc i.patches = some patches)
     (hdelta : validateDelta cfg orc (some (mkDelta i.updateCommitment patches)) = true)
     (hne : i.updateCommitment ≠ i.recoveryCommitment)
+    (hfreshU : keyFresh H (some k) i.updateCommitment = true)
     (hrv : multihashOK cfg i.revealValue = true)
     (hreveal : ∃ c, Hashing.revealValue H k.toJson c = some i.revealValue)
     (horigin : orc.anchorOriginOK i.anchorOrigin = true)
@@ -796,6 +797,10 @@ theorem recover_built_accepted (ok : HashOK H) (i : RecoverInfo) (req : Json) (k
             | false => simp [hcd] at hb
             | true =>
               simp only [hcd, Bool.not_true, Bool.false_eq_true, if_false] at hb
+              cases hcd2 : commitmentDiffers H k i.code i.updateCommitment with
+              | false => simp [hcd2] at hb
+              | true =>
+              simp only [hcd2, Bool.not_true, Bool.false_eq_true, if_false] at hb
               cases hsm : signModel (recoverSignedJson (some k) dh i.recoveryCommitment i.anchorOrigin i.anchorFrom i.anchorUntil) s with
               | none => simp [hsm] at hb
               | some compact =>
@@ -815,7 +820,7 @@ theorem recover_built_accepted (ok : HashOK H) (i : RecoverInfo) (req : Json) (k
                           signedData := compact, revealValue := i.revealValue, anchorOrigin := i.anchorOrigin }, ?_, rfl, rfl, rfl, rfl, rfl⟩
                 have huc : (mkDelta i.updateCommitment patches).updateCommitment = i.updateCommitment := rfl
                 simp only [deltaJson] at hdec
-                simp [parseRecover, signedRequestJson, hdec, hsd, horigin, htime, hdelta, hrm, guard', huc, hne]
+                simp [parseRecover, signedRequestJson, hdec, hsd, horigin, htime, hdelta, hrm, guard', huc, hne, hfreshU]
 
 /-- **a built deactivate request is accepted**, given that the parser reads the signed data back -/
 theorem deactivate_built_accepted (ok : HashOK H) (i : DeactivateInfo) (req : Json) (k : Jwk)
@@ -955,7 +960,38 @@ theorem recover_built_accepted_unwindowed (ok : HashOK H) (i : RecoverInfo) (req
             cases hcd : commitmentDiffers H k i.code i.recoveryCommitment with
             | false => simp [hcd] at hb
             | true => exact fresh_of_differs H cfg k i.code i.recoveryCommitment halg hrc hcd
-  apply recover_built_accepted H cfg orc ok i req k patches hb hk hp hdelta hne hrv hreveal horigin (by rw [hf, hu]; exact htime)
+  -- … and so does the one on the next update commitment (a valid delta's commitment is a well-formed hash)
+  have hmuc : multihashOK cfg i.updateCommitment = true := by
+    have hd := hdelta
+    simp only [validateDelta, mkDelta] at hd
+    cases hpp : patches with
+    | nil => simp [hpp] at hd
+    | cons a as => simp only [hpp, Bool.and_eq_true] at hd; exact hd.1.2
+  have hfreshU : keyFresh H (some k) i.updateCommitment = true := by
+    unfold newRecoverRequest at hb
+    by_cases h0 : i.didSuffix = "" ∨ i.revealValue = ""
+    · rw [if_pos h0] at hb; cases hb
+    · rw [if_neg h0] at hb
+      by_cases h00 : ((i.opaqueDoc.isNone && i.patches.isEmpty) || (i.opaqueDoc.isSome && !i.patches.isEmpty)) = true
+      · rw [if_pos h00] at hb; cases hb
+      · rw [if_neg h00] at hb
+        simp only [hk, hsg] at hb
+        by_cases h1 : (!signerOK (some s)) = true ∨ (!k.valid) = true
+        · rw [if_pos h1] at hb; cases hb
+        · rw [if_neg h1] at hb
+          simp only [hp] at hb
+          cases hdh : Hashing.calculateModelMultihash H (mkDelta i.updateCommitment patches).toJson i.code with
+          | none => simp [hdh] at hb
+          | some dh =>
+            simp only [hdh] at hb
+            cases hcd : commitmentDiffers H k i.code i.recoveryCommitment with
+            | false => simp [hcd] at hb
+            | true =>
+              simp only [hcd, Bool.not_true, Bool.false_eq_true, if_false] at hb
+              cases hcd2 : commitmentDiffers H k i.code i.updateCommitment with
+              | false => simp [hcd2] at hb
+              | true => exact fresh_of_differs H cfg k i.code i.updateCommitment halg hmuc hcd2
+  apply recover_built_accepted H cfg orc ok i req k patches hb hk hp hdelta hne hfreshU hrv hreveal horigin (by rw [hf, hu]; exact htime)
   intro s' dh compact hs' hdh hsm
   rw [hsg] at hs'
   cases hs'
